@@ -39,6 +39,7 @@ type cPlan struct {
 	AgeMs    int64          `json:"age_ms"`
 	Count    int            `json:"count"`
 	FailPct  int            `json:"fail_pct"`
+	FailFirst int           `json:"fail_first,omitempty"` // >0: only the first so many cleanup calls may fail, all later ones succeed
 	BlockPct int            `json:"block_pct"`
 	NoFn     bool           `json:"no_prune_fn,omitempty"`
 	Clients  [][]cOp        `json:"clients"`
@@ -142,6 +143,14 @@ func makePlan(base uint64, tier string, idx int) *cPlan {
 		p.NoFn = true
 		p.Profile = "no cleanup function"
 	}
+	recover := !p.NoFn && p.FailPct > 0 && idx%3 == 0
+	if recover {
+		// cleanups fail for a while (entries pile up above the limit), then all of them succeed: the next insertion beyond
+		// the limit is followed by pruning back to it
+		p.Profile += ", then all succeed"
+		p.FailPct, p.FailFirst = r.pick(60, 90, 100), r.pick(2, 3, 5, 9)
+		p.Count = r.pick(1, 2, 3)
+	}
 	nkeys := r.pick(1, 2, 3, 6)
 	nc := r.pick(1, 2, 2, 3, 4)
 	scale := 1
@@ -178,6 +187,20 @@ func makePlan(base uint64, tier string, idx int) *cPlan {
 		}
 		p.Clients = append(p.Clients, ops)
 	}
+	if recover {
+		// keys nobody used before, inserted once everything else is over
+		wait := int64(50)
+		for _, ops := range p.Clients {
+			for _, op := range ops {
+				wait += op.Ms + 1
+			}
+		}
+		tail := []cOp{{K: "sleep", Ms: wait}}
+		for i := 0; i < p.FailFirst+p.Count+2; i++ {
+			tail = append(tail, cOp{K: "set", Key: 1000 + i}, cOp{K: "sleep", Ms: 1})
+		}
+		p.Clients = append(p.Clients, tail)
+	}
 	switch r.intn(5) {
 	case 0:
 		p.Strat = simrt.Strategy{Kind: "uniform"}
@@ -207,6 +230,7 @@ func runPlan(t *testing.T, p *cPlan) (out *runOut) {
 	var sim *simrt.Sim
 	var res simrt.Result
 	var log []event
+	ncl := 0 // cleanup calls so far
 	var seq int64
 	var start time.Time
 	nextVal := 0
@@ -232,8 +256,9 @@ func runPlan(t *testing.T, p *cPlan) (out *runOut) {
 					}
 				}
 				b := int(beh.Next() % 100)
+				ncl++
 				switch {
-				case b < p.FailPct:
+				case b < p.FailPct && (p.FailFirst == 0 || ncl <= p.FailFirst):
 					ev.ok = false
 				case b < p.FailPct+p.BlockPct:
 					// block: the task parks for a simulated moment (other tasks run meanwhile), then succeeds
@@ -518,6 +543,22 @@ func judge(p *cPlan, log []event, present map[int]int, out *runOut) {
 			if oka && okb && bHi.Before(aLo) {
 				viol("cache.lru-order", "count", fmt.Sprintf("count-triggered pruning attempted key %d (last used no earlier than %s) before key %d (last used no later than %s)", cs[i-1].key, aLo.Format("15:04:05.000000"), cs[i].key, bHi.Format("15:04:05.000000")))
 				return
+			}
+		}
+	}
+	// (e') … and so it does when the last failure is over and a key never used before was inserted afterwards: that
+	// insertion is beyond the limit or it is not, either way pruning (all cleanups succeeding now) ends at the limit
+	if p.Count > 0 && anyFailed && len(present) > p.Count {
+		lastFail := int64(0)
+		for _, c := range cleanups {
+			if !c.ok && c.end > lastFail {
+				lastFail = c.end
+			}
+		}
+		for _, e := range log {
+			if e.kind == "set" && e.key >= 1000 && e.seq > lastFail {
+				viol("cache.unbounded", fmt.Sprintf("limit %d, after cleanups recovered", p.Count), fmt.Sprintf("%d entries remain at quiescence, the configured count is %d; the last failed cleanup ended at event %d and key %d was inserted at event %d, after it", len(present), p.Count, lastFail, e.key, e.seq))
+				break
 			}
 		}
 	}
